@@ -1,11 +1,167 @@
-(* C06 -- SCP bursts complete each command exactly once despite loss and reordering (under construction) *)
+(* C06 -- SCP bursts complete each command exactly once despite loss and reordering.
+
+   Objects (Model/SCP.v): [burst cf cmds evs k] runs SCPConnection.send_scp_burst (send_scp = one command,
+   window 1) on the connection state k (sequence generator, clock, socket buffer left by earlier calls) with
+   the configuration cf = (window, tries, default timeout), the commands cmds (identity, extra timeout) and
+   the environment evs : one event per select = (datagrams that arrived, clock after the select).  It returns
+   the trace (sock.send, select, sock.recv, callback invocations, in order), the outcome (Returned /
+   RaisedTimeout c / RaisedFatal rc c / ...), the connection afterwards and the unused events.
+   Loss = a datagram never listed, duplication = listed twice, delay / reordering = listed later; replies
+   of earlier calls arrive through k_buf and the events.  The theorems hold for EVERY event list, burst,
+   window 1..2^16, tries >= 1, extra timeouts and connection state; none is bounded.
+   The model is tied to rig/machine_control/scp_connection.py on every run by exact trace equality against
+   the real code on fault schedules (harness/c06.py), and its constants (return codes, retryable set,
+   sequence mask) are regenerated from the live modules (Generated/GenSCP.v). *)
 From Coq Require Import ZArith List Bool.
-Require Import Rig.Generated.GenSCP Rig.Model.Base Rig.Model.SCP.
+Require Import Rig.Generated.GenSCP Rig.Model.Base Rig.Model.SCP Rig.Spec.SCP.
+Require Import Rig.Proofs.SCP Rig.Proofs.SCPReply Rig.Proofs.SCPTerm Rig.Proofs.SCPWitness.
 Import ListNotations.
 Open Scope Z_scope.
 
-Example C06_model_runs :
-  burst (Cf 1 2 10) [Cmd 0 0] [Ev [Dg 128 0 0] 1; Ev [] 2] conn0
-  = ([OSend 0 0 0 0; OSelect 10; ORecv (Dg 128 0 0); OCallback 0 (Dg 128 0 0); OSelect 0], Returned,
-     {| k_seq := 1; k_ntx := 1; k_now := 2; k_buf := [] |}, []).
-Proof. vm_compute. reflexivity. Qed.
+(* ---- "completes having invoked each command's callback exactly once" *)
+(* a call that returns normally has invoked the callback of every command as often as the command occurs in
+   the burst (no hypothesis at all) ... *)
+Theorem C06_completion :
+  forall cf cmds evs k tr k' rest,
+    burst cf cmds evs k = (tr, Returned, k', rest) ->
+    forall c, n_callbacks c tr = occurrences c (ids cmds).
+Proof. exact completion. Qed.
+
+(* ... i.e. exactly once when the commands are distinct, and no other callback *)
+Theorem C06_completion_exactly_once :
+  forall cf cmds evs k tr k' rest,
+    NoDup (ids cmds) ->
+    burst cf cmds evs k = (tr, Returned, k', rest) ->
+    (forall c, In c (ids cmds) -> n_callbacks c tr = 1%nat) /\
+    (forall c, ~ In c (ids cmds) -> n_callbacks c tr = 0%nat).
+Proof. exact completion_exactly_once. Qed.
+
+(* however the call ends (return, either error, still running), no callback has been invoked twice *)
+Theorem C06_callback_at_most_once :
+  forall cf cmds evs k tr oc k' rest,
+    burst cf cmds evs k = (tr, oc, k', rest) ->
+    forall c, (n_callbacks c tr <= occurrences c (ids cmds))%nat.
+Proof. exact callback_at_most_once. Qed.
+
+(* ---- "... with the reply to that very command" *)
+(* [past]: everything that happened on the connection before the call.  Causal: the network does not invent
+   datagrams (each received datagram was caused by the earlier transmission it names and echoes its sequence
+   number).  Fresh: no reply is delivered after its sequence number was re-issued to a later command.
+   Then every callback receives an OK reply caused by a transmission of its own command. *)
+Theorem C06_reply_matches :
+  forall cf cmds evs k past tr oc k' rest,
+    config_ok cf -> NoDup (ids cmds) -> history_ok past k cmds ->
+    burst cf cmds evs k = (tr, oc, k', rest) ->
+    causal (past ++ tr) -> fresh (past ++ tr) ->
+    forall c d, In (OCallback c d) tr -> reply_to (past ++ tr) c d.
+Proof. exact reply_matches. Qed.
+
+(* Without Fresh the clause is FALSE of the faithful model (and of the code: known finding K2, replayed on the
+   real SCPConnection by harness/c06.py, key seq-wrap-stale-duplicate): window 1, 65 537 commands, the reply to
+   the first transmission duplicated and the copy delivered when sequence number 0 has come round. *)
+Theorem C06_reply_matches_without_fresh_refuted :
+  exists cf cmds evs k past tr k' rest c d,
+    config_ok cf /\ NoDup (ids cmds) /\ history_ok past k cmds /\
+    burst cf cmds evs k = (tr, Returned, k', rest) /\
+    causal (past ++ tr) /\
+    In (OCallback c d) tr /\ ~ reply_to (past ++ tr) c d /\
+    c = 65536 /\ d_src d = 0 /\ In (OSend 0 0 0 0) tr.
+Proof. exact reply_matches_without_fresh_refuted. Qed.
+
+(* ---- "or raises the timeout error for a command that was transmitted exactly the configured number of tries
+        without its reply being received" *)
+Theorem C06_timeout_exact :
+  forall cf cmds evs k tr c k' rest,
+    config_ok cf -> NoDup (ids cmds) ->
+    burst cf cmds evs k = (tr, RaisedTimeout c, k', rest) ->
+    In c (ids cmds) /\ Z.of_nat (n_sends c tr) = cf_tries cf /\ never_answered c tr.
+Proof. exact timeout_exact. Qed.
+
+(* ---- "at no time are more than the window size of commands unanswered" (every prefix of the trace) *)
+Theorem C06_window_inv :
+  forall cf cmds evs k tr oc k' rest,
+    config_ok cf -> NoDup (ids cmds) ->
+    burst cf cmds evs k = (tr, oc, k', rest) ->
+    window_respected (cf_window cf) tr.
+Proof. exact window_inv. Qed.
+
+(* ---- "no command is retransmitted before its timeout has elapsed or more often than the configured tries" *)
+Theorem C06_tries_inv :
+  forall cf cmds evs k tr oc k' rest,
+    config_ok cf -> NoDup (ids cmds) ->
+    burst cf cmds evs k = (tr, oc, k', rest) ->
+    (forall c, Z.of_nat (n_sends c tr) <= cf_tries cf) /\ retransmissions_spaced cf cmds tr.
+Proof. exact tries_inv. Qed.
+
+(* ---- "a fatal return code raises the fatal-return-code error" *)
+(* a received datagram whose code is neither OK nor retryable is the last thing the call does, and the call
+   ends with FatalReturnCodeError carrying that code; nothing fatal was received before it *)
+Theorem C06_fatal_raises :
+  forall cf cmds evs k tr oc k' rest,
+    burst cf cmds evs k = (tr, oc, k', rest) ->
+    forall d, In (ORecv d) tr -> fatal_rc (d_rc d) ->
+    exists tr1 c, tr = tr1 ++ [ORecv d] /\ oc = RaisedFatal (d_rc d) c /\
+                  (forall d', In (ORecv d') tr1 -> ~ fatal_rc (d_rc d')).
+Proof. exact fatal_raises. Qed.
+
+(* that error has no other cause (in particular a retryable busy / checksum code never raises it) *)
+Theorem C06_fatal_only_from_datagram :
+  forall cf cmds evs k tr rc c k' rest,
+    burst cf cmds evs k = (tr, RaisedFatal rc c, k', rest) ->
+    exists tr1 d, tr = tr1 ++ [ORecv d] /\ d_rc d = rc /\ fatal_rc rc.
+Proof. exact fatal_only_from_datagram. Qed.
+
+(* with the current tables of consts.py the constructor of FatalReturnCodeError cannot itself fail *)
+Theorem C06_no_key_error :
+  forall cf cmds evs k tr rc k' rest,
+    burst cf cmds evs k <> (tr, RaisedKeyError rc, k', rest).
+Proof. exact no_key_error. Qed.
+
+(* ---- "the call always terminates" *)
+(* select_honest: each select returns with data or after more than the timeout it was given.  Then the loop
+   runs at most  #datagrams + #commands * (tries - 1) + 1  iterations: it never consumes more events, and given
+   that many it has ended (returned or raised) *)
+Theorem C06_termination :
+  forall cf cmds evs k tr oc k' rest,
+    config_ok cf ->
+    select_honest cf evs k (bstate0 cmds) ->
+    burst cf cmds evs k = (tr, oc, k', rest) ->
+    Z.of_nat (length evs) - Z.of_nat (length rest)
+      <= Z.of_nat (datagrams k evs) + Z.of_nat (length cmds) * (cf_tries cf - 1) + 1
+    /\ (Z.of_nat (datagrams k evs) + Z.of_nat (length cmds) * (cf_tries cf - 1) + 1 <= Z.of_nat (length evs) ->
+        oc <> NeedEvent).
+Proof. exact termination. Qed.
+
+(* the inner loop `while seq in outstanding_packets` always exits (window <= 2^16: a number is free) *)
+Theorem C06_no_seq_divergence :
+  forall cf cmds evs k tr oc k' rest,
+    config_ok cf -> 0 <= k_seq k < 65536 ->
+    burst cf cmds evs k = (tr, oc, k', rest) -> oc <> SeqSearchDiverges.
+Proof. exact no_divergence. Qed.
+
+(* ---- the constants the model takes from the source (regenerated on every run) *)
+Example C06_constants :
+  rc_ok = 128 /\ retryable_codes = [130; 141] /\ seq_mask = 65535 /\ seq_first_values = [0; 1; 2; 3]
+  /\ sdp_header_length + 2 = 10.
+Proof. repeat split; reflexivity. Qed.
+
+(* ---- the hypotheses are satisfiable: a run with a late reply, a duplicate, a busy answer and two
+        retransmissions meets all of them (and returns); a timeout and a fatal ending exist *)
+Example C06_hypotheses_satisfiable :
+  config_ok ex_cf /\ NoDup (ids ex_cmds) /\ history_ok [] conn0 ex_cmds /\ 0 <= k_seq conn0 < 65536 /\
+  select_honest ex_cf ex_events conn0 (bstate0 ex_cmds) /\
+  Z.of_nat (datagrams conn0 ex_events) + Z.of_nat (length ex_cmds) * (cf_tries ex_cf - 1) + 1
+    <= Z.of_nat (length ex_events) /\
+  exists tr k' rest,
+    burst ex_cf ex_cmds ex_events conn0 = (tr, Returned, k', rest) /\ causal ([] ++ tr) /\ fresh ([] ++ tr) /\
+    n_sends 0 tr = 2%nat /\ n_sends 1 tr = 2%nat /\ length rest = 6%nat.
+Proof. exact ex_satisfiable. Qed.
+
+Example C06_timeout_outcome_exists :
+  exists tr k' rest, burst (Cf 1 2 10) [Cmd 7 0] [Ev [] 11; Ev [] 22] conn0 = (tr, RaisedTimeout 7, k', rest).
+Proof. exact ex_timeout. Qed.
+
+Example C06_fatal_outcome_exists :
+  exists tr k' rest,
+    burst (Cf 1 2 10) [Cmd 7 0] [Ev [Dg rc_cpu 0 0] 1] conn0 = (tr, RaisedFatal rc_cpu (Some 7), k', rest).
+Proof. exact ex_fatal. Qed.
